@@ -33,18 +33,9 @@ fn single(d: Dir, k: Kind, occ: usize, a: Act) -> Rule { Rule { dir: d, kind: k,
 
 fn finite(s: &Script) -> bool { s.rules.iter().all(|r| matches!(r.occ, Occ::Nth(_))) }
 
-/// the recorded finding classes, as predicates on (script, outcome)
-fn known_class(o: &Outcome) -> Option<&'static str> {
-    let s = &o.script;
-    let bad_frag = s.rules.iter().any(|r| match &r.act {
-        Act::Frag { cuts, order } => cuts.len() >= 2 && order.windows(2).any(|w| w[1] != w[0] + 1),
-        _ => false,
-    });
-    if bad_frag && !o.both_connected() {
-        return Some("fragment_out_of_order");
-    }
-    None
-}
+/// the recorded finding classes, as predicates on (script, outcome): none is open any more
+/// (F19 fixed by 1decd50, F20 by 03019cb, F26 by c3f15a2)
+fn known_class(_o: &Outcome) -> Option<&'static str> { None }
 
 fn scripts(tier: &str, rng: &mut Rng) -> Vec<(String, Script)> {
     let mut v: Vec<(String, Script)> = vec![];
@@ -55,9 +46,9 @@ fn scripts(tier: &str, rng: &mut Rng) -> Vec<(String, Script)> {
     }
     v.push(("corpus".into(), mk("F19 drop server Finished (fixed 1decd50)".into(), Expect::Right, Expect::None, vec![single(Dir::BtoA, Kind::FIN, 0, Act::Drop)], 3300)));
     v.push(("corpus".into(), mk("drop client ClientKeyExchange (fixed c3f15a2)".into(), Expect::Right, Expect::None, vec![single(Dir::AtoB, Kind::CKE, 0, Act::Drop)], 3300)));
-    v.push(("corpus".into(), mk("F20 certificate in 3 fragments, order 0,2,1".into(), Expect::Right, Expect::None,
+    v.push(("corpus".into(), mk("F20 certificate in 3 fragments, order 0,2,1 (fixed 03019cb)".into(), Expect::Right, Expect::None,
         vec![single(Dir::BtoA, Kind::CERT, 0, Act::Frag { cuts: vec![100, 200], order: vec![0, 2, 1] })], 3300)));
-    v.push(("corpus".into(), mk("F20 certificate in 3 fragments, middle duplicated".into(), Expect::Right, Expect::None,
+    v.push(("corpus".into(), mk("F20 certificate in 3 fragments, middle duplicated (fixed 03019cb)".into(), Expect::Right, Expect::None,
         vec![single(Dir::BtoA, Kind::CERT, 0, Act::Frag { cuts: vec![100, 200], order: vec![0, 1, 1, 2] })], 3300)));
     // all single faults on the first transmission of every datagram
     for (d, k) in datagrams() {
@@ -77,10 +68,21 @@ fn scripts(tier: &str, rng: &mut Rng) -> Vec<(String, Script)> {
                 vec![single(d, k, 0, Act::Frag { cuts, order })], 3300)));
         }
     }
-    for order in [vec![0usize, 2, 1], vec![1, 0, 2], vec![0, 1, 1, 2], vec![2, 1, 0], vec![0, 1, 2, 2], vec![0, 0, 1, 2], vec![1, 2, 0]] {
+    for order in [vec![0usize, 2, 1], vec![1, 0, 2], vec![0, 1, 1, 2], vec![2, 1, 0], vec![0, 1, 2, 2], vec![0, 0, 1, 2], vec![1, 2, 0], vec![0, 1, 0, 2], vec![2, 0, 1]] {
         v.push(("refrag".into(), mk(format!("s2c CERT frag[100,200] order{:?}", order), Expect::Right, Expect::None,
             vec![single(Dir::BtoA, Kind::CERT, 0, Act::Frag { cuts: vec![100, 200], order })], 3300)));
     }
+    // permuted / duplicated fragments of every other plaintext message (all legal per RFC 6347 4.2.3)
+    for (d, k) in [(Dir::AtoB, Kind::CH), (Dir::BtoA, Kind::SH), (Dir::BtoA, Kind::SKE), (Dir::AtoB, Kind::CKE)] {
+        for order in [vec![0usize, 2, 1], vec![2, 1, 0], vec![0, 1, 1, 2], vec![1, 0, 2]] {
+            v.push(("refrag".into(), mk(format!("{} {:?} frag[20,40] order{:?}", dname(d), k, order), Expect::Right, Expect::None,
+                vec![single(d, k, 0, Act::Frag { cuts: vec![20, 40], order })], 3300)));
+        }
+    }
+    // the retransmission re-fragmented at different cut points after an incomplete first attempt
+    v.push(("refrag".into(), mk("s2c CERT first [100,200] order[0,2], retransmission [150] in order".into(), Expect::Right, Expect::None,
+        vec![single(Dir::BtoA, Kind::CERT, 0, Act::Frag { cuts: vec![100, 200], order: vec![0, 2] }),
+             single(Dir::BtoA, Kind::CERT, 1, Act::Frag { cuts: vec![150], order: vec![0, 1] })], 3300)));
     // permanent loss (no convergence demanded; agreement still is)
     for (d, k) in [(Dir::BtoA, Kind::FIN), (Dir::AtoB, Kind::FIN), (Dir::AtoB, Kind::CKE), (Dir::BtoA, Kind::CERT)] {
         v.push(("permanent".into(), mk(format!("{} {:?} always dropped", dname(d), k), Expect::None, Expect::None,
@@ -157,7 +159,39 @@ async fn main() {
             kind,
         });
     }
-    out.finish(json!({"generator": {"scripts_by_kind": dist, "final_state_pairs(client/server codes 1=Handshaking 2=Connected 3=Failed)": finals,
+    // rustrtc against the webrtc-rs `dtls` crate, both roles, ordinal-addressed datagram faults (oracle only)
+    use dtls_hs::interop::{self, Fault, Pin};
+    let mut jobs = vec![];
+    let depth = if args.tier == "thorough" { 7 } else { 5 };
+    for client in [true, false] {
+        jobs.push(tokio::spawn(interop::run(client, Fault::None, Pin::None, 5000)));
+        for r in [true, false] { for n in 0..depth { for f in [Fault::Drop(r, n), Fault::Dup(r, n), Fault::Delay(r, n, 1300)] {
+            jobs.push(tokio::spawn(interop::run(client, f, Pin::None, 5000)));
+        } } }
+    }
+    let mut interop_stat = std::collections::BTreeMap::<String, usize>::new();
+    for j in jobs {
+        let o = j.await.expect("interop task");
+        let converged = o.rustrtc_state == 2 && o.peer_connected;
+        *interop_stat.entry(format!("rustrtc_{}:{}", if o.rustrtc_is_client { "client" } else { "server" }, if converged { "converged" } else { "not converged" })).or_default() += 1;
+        let mut fail = None;
+        let mut known = None;
+        if converged {
+            if o.exporter_equal != Some(true) { fail = Some("rustrtc and webrtc-rs dtls both completed but export different keying material".to_string()); }
+            else if !o.app_to_peer || !o.app_from_peer { fail = Some(format!("both completed but application data did not flow (to webrtc-rs {}, from webrtc-rs {})", o.app_to_peer, o.app_from_peer)); }
+        } else {
+            // class X: rustrtc (client) retransmits byte-identical records; webrtc-rs discards them as replays, so a lost
+            // HelloVerifyRequest (its datagram 0) or a lost final flight (its datagram 2) is never re-sent
+            let x = o.rustrtc_is_client && matches!(o.fault, Fault::Drop(false, 0) | Fault::Drop(false, 2));
+            if x { known = Some("retransmit_same_record_seq".to_string()); }
+            else { fail = Some(format!("no convergence with webrtc-rs dtls within 5 s under a single datagram fault: rustrtc state {}, peer connected {} ({:?})", o.rustrtc_state, o.peer_connected, o.peer_error)); }
+        }
+        out.push(Case { term: "-".into(), desc: json!({"interop": "webrtc-rs dtls 0.17.2", "rustrtc_role": if o.rustrtc_is_client { "client" } else { "server" }, "fault": format!("{:?}", o.fault),
+                "rustrtc_state": o.rustrtc_state, "peer_connected": o.peer_connected, "exporter_equal": o.exporter_equal, "app_to_peer": o.app_to_peer, "app_from_peer": o.app_from_peer,
+                "datagrams(rustrtc,webrtc-rs)": [o.datagrams.0, o.datagrams.1], "elapsed_s": o.elapsed, "peer_error": o.peer_error}),
+            oracle_fail: fail, known, nontrivial: o.fault != Fault::None, key: format!("interop {} {:?}", o.rustrtc_is_client, o.fault), kind: "interop".into() });
+    }
+    out.finish(json!({"generator": {"scripts_by_kind": dist, "interop_webrtc_rs": interop_stat, "final_state_pairs(client/server codes 1=Handshaking 2=Connected 3=Failed)": finals,
         "datagrams_of_a_handshake": "c2s: ClientHello, ClientKeyExchange, ChangeCipherSpec, Finished; s2c: ServerHello, Certificate, ServerKeyExchange, ServerHelloDone, ChangeCipherSpec, Finished (one record per datagram)",
         "faults": "drop, duplicate, swap-with-next, delay 1300 ms (past the 1 s retransmit tick), re-fragmentation (2-3 fragments, in order / permuted / duplicated)",
         "harness_wall_s": t0.elapsed().as_secs_f64()}}));
